@@ -8,6 +8,8 @@ def main(tier):
     for combined in (True, False):
         for claim in (True, False):
             run.add(DecodeTask('C10', combined, claim))
+            if not claim:
+                run.add(DecodeTask('C10', combined, claim, data_len=3 if not combined else 12))     # the outcome does not depend on how many data bytes a frame carries
     run.add(ClaimPgnTask('C10'))
     # "filtered-out traffic never disturbs later results" for fast packets: the reassembly record is deleted when a message
     # completes, whatever the decode step returns (message, None = filtered out, or an exception) - the transition contract of C04
